@@ -78,11 +78,12 @@ theorem halfTurn_bisector {len : V3 α → α} (hlen : LenSpec len) {f t : V3 α
     linear_combination (f3 + t3) * hf - (f3 + t3) * ht - (f3 + t3) * h2
 
 
-/-- `rotationMatrix(from, to)`: the extracted composition -/
-theorem rotationMatrix_eq (tmin : α) (sqrt : α → α) (fromDir toDir : V3 α) :
-    Gen.Frame.rotationMatrix tmin sqrt fromDir toDir
-      = Gen.Frame.quatToMatrix44 (quatSetRotationSpec (Gen.V3.length tmin sqrt) fromDir toDir) := by
-  rw [← quatSetRotation_eq_spec tmin sqrt ⟨1, ⟨0, 0, 0⟩⟩ fromDir toDir]
+/-- `rotationMatrix(from, to)`: the extracted composition (non-zero `from`, `to`) -/
+theorem rotationMatrix_eq (tmin teps : α) (sqrt : α → α) (fromDir toDir : V3 α)
+    (h1 : Gen.V3.length tmin sqrt fromDir ≠ 0) (h2 : Gen.V3.length tmin sqrt toDir ≠ 0) :
+    Gen.Frame.rotationMatrix tmin teps sqrt fromDir toDir
+      = Gen.Frame.quatToMatrix44 (quatSetRotationSpec (Gen.V3.length tmin sqrt) teps fromDir toDir) := by
+  rw [← quatSetRotation_eq_spec tmin teps sqrt ⟨1, ⟨0, 0, 0⟩⟩ fromDir toDir h1 h2]
   obtain ⟨fx, fy, fz⟩ := fromDir
   obtain ⟨tx, ty, tz⟩ := toDir
   simp only [Gen.Frame.rotationMatrix, Gen.Frame.quatToMatrix44]
@@ -122,15 +123,15 @@ theorem qInternal_spec {len : V3 α → α} (hlen : LenSpec len) {f t : V3 α} (
   rw [quat_fh_apply hf hh, halfTurn_bisector hlen hf ht hs]
 
 /-- angle ≤ π/2 (`from^ · to^ ≥ 0`): orthonormal right-handed, takes the direction of `from` to the direction of `to` -/
-theorem rotationMatrixSpec_acute {len : V3 α → α} (hlen : LenSpec len) {fromDir toDir : V3 α}
+theorem rotationMatrixSpec_acute {len : V3 α → α} (hlen : LenSpec len) (teps : α) {fromDir toDir : V3 α}
     (hf : fromDir ≠ ⟨0, 0, 0⟩) (ht : toDir ≠ ⟨0, 0, 0⟩) (hd : 0 ≤ dot (nrm len fromDir) (nrm len toDir)) :
-    IsFrame (Gen.Frame.quatToMatrix44 (quatSetRotationSpec len fromDir toDir)) ∧
-      row3 (Gen.Frame.quatToMatrix44 (quatSetRotationSpec len fromDir toDir)) = ⟨0, 0, 0⟩ ∧
-      (nrm len fromDir).toVec ᵥ* rot3 (Gen.Frame.quatToMatrix44 (quatSetRotationSpec len fromDir toDir)) = (nrm len toDir).toVec := by
+    IsFrame (Gen.Frame.quatToMatrix44 (quatSetRotationSpec len teps fromDir toDir)) ∧
+      row3 (Gen.Frame.quatToMatrix44 (quatSetRotationSpec len teps fromDir toDir)) = ⟨0, 0, 0⟩ ∧
+      (nrm len fromDir).toVec ᵥ* rot3 (Gen.Frame.quatToMatrix44 (quatSetRotationSpec len teps fromDir toDir)) = (nrm len toDir).toVec := by
   have huf := nrm_unit' hlen hf
   have hut := nrm_unit' hlen ht
   have hs := vadd_ne_zero_of_dot huf hut (by linarith)
-  have e : quatSetRotationSpec len fromDir toDir = qInternal len (nrm len fromDir) (nrm len toDir) := by
+  have e : quatSetRotationSpec len teps fromDir toDir = qInternal len (nrm len fromDir) (nrm len toDir) := by
     simp only [quatSetRotationSpec, if_pos hd]
   rw [e]
   obtain ⟨h1, h2⟩ := qInternal_spec hlen huf hut hs
@@ -177,15 +178,39 @@ theorem quat_pure_apply {v : V3 α} (hv : dot v v = 1) (p : V3 α) :
   · linear_combination (-2 * p2) * hv
   · linear_combination (-2 * p3) * hv
 
-/-- exactly opposite directions (`from^ + to^ = 0`): rotation by π about an axis perpendicular to `from`; takes `from^` to `to^ = −from^` -/
-theorem rotationMatrixSpec_opposite {len : V3 α → α} (hlen : LenSpec len) {fromDir toDir : V3 α}
-    (hf : fromDir ≠ ⟨0, 0, 0⟩) (ht : toDir ≠ ⟨0, 0, 0⟩) (hopp : vadd (nrm len fromDir) (nrm len toDir) = ⟨0, 0, 0⟩) :
-    IsFrame (Gen.Frame.quatToMatrix44 (quatSetRotationSpec len fromDir toDir)) ∧
-      row3 (Gen.Frame.quatToMatrix44 (quatSetRotationSpec len fromDir toDir)) = ⟨0, 0, 0⟩ ∧
-      (nrm len fromDir).toVec ᵥ* rot3 (Gen.Frame.quatToMatrix44 (quatSetRotationSpec len fromDir toDir)) = (nrm len toDir).toVec := by
+/-- directions opposite to within `|from^ + to^|² ≤ (8ε)²` (in particular exactly opposite): a half-turn about an axis perpendicular to
+`from`; it takes `from^` to `−from^` -/
+theorem rotationMatrixSpec_nearOpposite {len : V3 α → α} (hlen : LenSpec len) (teps : α) {fromDir toDir : V3 α}
+    (hf : fromDir ≠ ⟨0, 0, 0⟩) (ht : toDir ≠ ⟨0, 0, 0⟩) (hd : dot (nrm len fromDir) (nrm len toDir) < 0)
+    (hopp : dot (vadd (nrm len fromDir) (nrm len toDir)) (vadd (nrm len fromDir) (nrm len toDir)) ≤ (8 * teps) * (8 * teps)) :
+    IsFrame (Gen.Frame.quatToMatrix44 (quatSetRotationSpec len teps fromDir toDir)) ∧
+      row3 (Gen.Frame.quatToMatrix44 (quatSetRotationSpec len teps fromDir toDir)) = ⟨0, 0, 0⟩ ∧
+      (nrm len fromDir).toVec ᵥ* rot3 (Gen.Frame.quatToMatrix44 (quatSetRotationSpec len teps fromDir toDir))
+        = (vneg (nrm len fromDir)).toVec := by
   have huf := nrm_unit' hlen hf
-  have hut := nrm_unit' hlen ht
-  have h0 : len (⟨0, 0, 0⟩ : V3 α) = 0 := (len_eq_zero_iff hlen _).mpr rfl
+  have e : quatSetRotationSpec len teps fromDir toDir = ⟨0, qOppositeAxis len (nrm len fromDir)⟩ := by
+    simp only [quatSetRotationSpec, if_neg (not_le.mpr hd), if_neg (not_lt.mpr hopp)]
+    simp [dot]
+  obtain ⟨hv1, hv2⟩ := qOppositeAxis_spec hlen huf
+  have hq : (⟨0, qOppositeAxis len (nrm len fromDir)⟩ : Quat α).r * (⟨0, qOppositeAxis len (nrm len fromDir)⟩ : Quat α).r
+      + dot (⟨0, qOppositeAxis len (nrm len fromDir)⟩ : Quat α).v (⟨0, qOppositeAxis len (nrm len fromDir)⟩ : Quat α).v = 1 := by
+    simp [hv1]
+  rw [e]
+  refine ⟨(quatToMatrix44_isFrame hq).1, (quatToMatrix44_isFrame hq).2, ?_⟩
+  rw [quatToMatrix44_eq, rot3_frameM44, vecMul_rows3, quat_pure_apply hv1]
+  simp only [halfTurn, hv2, mul_zero]
+  congr 1
+  generalize nrm len fromDir = f
+  obtain ⟨f1, f2, f3⟩ := f
+  simp [vsub, smul, vneg]
+
+/-- exactly opposite directions: `−from^ = to^`, so the half-turn takes `from^` to `to^` -/
+theorem rotationMatrixSpec_opposite {len : V3 α → α} (hlen : LenSpec len) (teps : α) {fromDir toDir : V3 α}
+    (hf : fromDir ≠ ⟨0, 0, 0⟩) (ht : toDir ≠ ⟨0, 0, 0⟩) (hopp : vadd (nrm len fromDir) (nrm len toDir) = ⟨0, 0, 0⟩) :
+    IsFrame (Gen.Frame.quatToMatrix44 (quatSetRotationSpec len teps fromDir toDir)) ∧
+      row3 (Gen.Frame.quatToMatrix44 (quatSetRotationSpec len teps fromDir toDir)) = ⟨0, 0, 0⟩ ∧
+      (nrm len fromDir).toVec ᵥ* rot3 (Gen.Frame.quatToMatrix44 (quatSetRotationSpec len teps fromDir toDir)) = (nrm len toDir).toVec := by
+  have huf := nrm_unit' hlen hf
   have hneg : nrm len toDir = vneg (nrm len fromDir) := by
     generalize nrm len fromDir = f at hopp ⊢
     generalize nrm len toDir = t at hopp ⊢
@@ -194,46 +219,39 @@ theorem rotationMatrixSpec_opposite {len : V3 α → α} (hlen : LenSpec len) {f
     simp only [vadd, V3.mk.injEq] at hopp
     simp only [vneg, V3.mk.injEq]
     exact ⟨by linarith [hopp.1], by linarith [hopp.2.1], by linarith [hopp.2.2]⟩
-  have hd : ¬ 0 ≤ dot (nrm len fromDir) (nrm len toDir) := by
+  have hd : dot (nrm len fromDir) (nrm len toDir) < 0 := by
     rw [hneg]
     have : dot (nrm len fromDir) (vneg (nrm len fromDir)) = - dot (nrm len fromDir) (nrm len fromDir) := by
       simp only [dot, vneg]; ring
     rw [this, huf]; norm_num
-  have hh : dot (nrm len (vadd (nrm len fromDir) (nrm len toDir))) (nrm len (vadd (nrm len fromDir) (nrm len toDir))) = 0 := by
-    rw [hopp]; simp [nrm, h0, dot]
-  have e : quatSetRotationSpec len fromDir toDir = ⟨0, qOppositeAxis len (nrm len fromDir)⟩ := by
-    simp only [quatSetRotationSpec, if_neg hd, if_pos hh]
-  obtain ⟨hv1, hv2⟩ := qOppositeAxis_spec hlen huf
-  have hq : (⟨0, qOppositeAxis len (nrm len fromDir)⟩ : Quat α).r * (⟨0, qOppositeAxis len (nrm len fromDir)⟩ : Quat α).r
-      + dot (⟨0, qOppositeAxis len (nrm len fromDir)⟩ : Quat α).v (⟨0, qOppositeAxis len (nrm len fromDir)⟩ : Quat α).v = 1 := by
-    simp [hv1]
-  rw [e]
-  refine ⟨(quatToMatrix44_isFrame hq).1, (quatToMatrix44_isFrame hq).2, ?_⟩
-  rw [quatToMatrix44_eq, rot3_frameM44, vecMul_rows3, quat_pure_apply hv1, hneg]
-  simp only [halfTurn, hv2, mul_zero]
-  congr 1
-  generalize nrm len fromDir = f
-  obtain ⟨f1, f2, f3⟩ := f
-  simp [vsub, smul, vneg]
+  have hle : dot (vadd (nrm len fromDir) (nrm len toDir)) (vadd (nrm len fromDir) (nrm len toDir)) ≤ (8 * teps) * (8 * teps) := by
+    rw [hopp]
+    have : dot (⟨0, 0, 0⟩ : V3 α) ⟨0, 0, 0⟩ = 0 := by simp [dot]
+    rw [this]; exact mul_self_nonneg _
+  have := rotationMatrixSpec_nearOpposite hlen teps hf ht hd hle
+  rw [hneg]; exact this
 
-/-- angle > π/2, not opposite: product of two half-angle rotations — proved here: orthonormal right-handed -/
-theorem rotationMatrixSpec_obtuse {len : V3 α → α} (hlen : LenSpec len) {fromDir toDir : V3 α}
+/-- angle > π/2 and `|from^ + to^|² > (8ε)²`: product of two half-angle rotations — proved here: orthonormal right-handed -/
+theorem rotationMatrixSpec_obtuse {len : V3 α → α} (hlen : LenSpec len) (teps : α) {fromDir toDir : V3 α}
     (hf : fromDir ≠ ⟨0, 0, 0⟩) (ht : toDir ≠ ⟨0, 0, 0⟩) (hd : dot (nrm len fromDir) (nrm len toDir) < 0)
-    (hopp : vadd (nrm len fromDir) (nrm len toDir) ≠ ⟨0, 0, 0⟩) :
-    IsFrame (Gen.Frame.quatToMatrix44 (quatSetRotationSpec len fromDir toDir)) ∧
-      row3 (Gen.Frame.quatToMatrix44 (quatSetRotationSpec len fromDir toDir)) = ⟨0, 0, 0⟩ := by
+    (hbig : (8 * teps) * (8 * teps) < dot (vadd (nrm len fromDir) (nrm len toDir)) (vadd (nrm len fromDir) (nrm len toDir))) :
+    IsFrame (Gen.Frame.quatToMatrix44 (quatSetRotationSpec len teps fromDir toDir)) ∧
+      row3 (Gen.Frame.quatToMatrix44 (quatSetRotationSpec len teps fromDir toDir)) = ⟨0, 0, 0⟩ := by
   have huf := nrm_unit' hlen hf
   have hut := nrm_unit' hlen ht
+  have hopp : vadd (nrm len fromDir) (nrm len toDir) ≠ ⟨0, 0, 0⟩ := by
+    apply ne_zero_of_dot
+    have := lt_of_le_of_lt (mul_self_nonneg (8 * teps)) hbig
+    exact this.ne'
   have hls := len_ne_zero hlen hopp
   have hps := len_pos hlen hopp
   have huh := nrm_unit hlen hls
   have hh : ¬ dot (nrm len (vadd (nrm len fromDir) (nrm len toDir))) (nrm len (vadd (nrm len fromDir) (nrm len toDir))) = 0 := by
     rw [huh]; exact one_ne_zero
-  have e : quatSetRotationSpec len fromDir toDir =
+  have e : quatSetRotationSpec len teps fromDir toDir =
       Gen.Quat.mulAssign (qInternal len (nrm len fromDir) (nrm len (vadd (nrm len fromDir) (nrm len toDir))))
         (qInternal len (nrm len (vadd (nrm len fromDir) (nrm len toDir))) (nrm len toDir)) := by
-    simp only [quatSetRotationSpec, if_neg (not_le.mpr hd), if_neg hh]
-  -- f·h > 0 and h·t > 0: h = (f + t)/|f + t| and f·(f + t) = t·(f + t) = 1 + f·t = |f + t|²/2 > 0
+    simp only [quatSetRotationSpec, if_neg (not_le.mpr hd), if_pos hbig, if_neg hh]
   have hss : dot (vadd (nrm len fromDir) (nrm len toDir)) (vadd (nrm len fromDir) (nrm len toDir))
       = 2 * (1 + dot (nrm len fromDir) (nrm len toDir)) := by
     have : dot (vadd (nrm len fromDir) (nrm len toDir)) (vadd (nrm len fromDir) (nrm len toDir))
